@@ -1,4 +1,4 @@
-import BppProofs.Lemmas.NumDerivReach
+import BppProofs.Lemmas.NumDerivExact
 /-!
 # C12 — numerical derivatives are transparent and exact on low-degree polynomials
 
@@ -284,5 +284,67 @@ theorem transparent_history (f : List ℝ → ℝ) (w : W ℝ) (es : List (Entry
   have h1 := runCalls_inv f w.fn.params es w h0
   obtain ⟨a, b, c, _, _⟩ := transparent f (runCalls f w es) e (h1.own hown.1 hown.2) h1.ok he hret
   exact ⟨a, b, c⟩
+
+
+/-! ## 4. What the three-point wrapper stores, end to end
+
+The nominal situation (`Free`): no constraint on the wrapped function's side, no constraint and no
+precision on the parameters of the list that is passed, `|f| < VERY_BIG` everywhere; step `h > 0`,
+no duplicate among the selected variables.  Then `updateDerivatives` does not raise and, for every
+selected variable present in the list, stores the central differences around the requested point
+`B` with step `H = (1 + |x|) h` — `three1`/`three2` are `d1Three`/`d2Three` applied to the values
+of `f` at `B` with that one coordinate moved by `∓H`.  Composed with part 1 this is exactness of
+the *stored* derivatives. -/
+
+theorem three_point_computes_central (f : List ℝ → ℝ) (w : W ℝ) (params : PList ℝ) (hown : Own w.fn) (hok : w.fn.OK f)
+    (hF : Free f params w.fn.params) (hpnd : (names params).Nodup) (hc1 : w.c1 = true) (hcx : w.cx = false)
+    (hvars : w.vars.Nodup) (hin : ∀ v ∈ w.vars, has params v = true → v ∈ names w.fn.params) (hh : 0 < w.h)
+    (hl1 : w.der1.length = w.vars.length) (hl2 : w.der2.length = w.vars.length) :
+    (update3 f w params).2 = none ∧
+    ∀ k (hk : k < w.vars.length), has params w.vars[k] = true →
+      (update3 f w params).1.der1[k]? = some (three1 f w.fn.params w.h w.vars[k]) ∧
+      (update3 f w params).1.der2[k]? = some (three2 f w.fn.params w.h (f (values w.fn.params)) w.vars[k]) :=
+  update3_free f w params hown hok hF hpnd hc1 hcx hvars hin hh hl1 hl2
+
+/-- the stored three-point derivatives are the analytical ones when `f`, as a function of the
+selected variable alone (the others at the requested point), is a cubic: the second derivative
+always, the first one when the cubic term vanishes (degree ≤ 2) -/
+theorem three_point_stored_exact (f : List ℝ → ℝ) (w : W ℝ) (params : PList ℝ) (hown : Own w.fn) (hok : w.fn.OK f)
+    (hF : Free f params w.fn.params) (hpnd : (names params).Nodup) (hc1 : w.c1 = true) (hcx : w.cx = false)
+    (hvars : w.vars.Nodup) (hin : ∀ v ∈ w.vars, has params v = true → v ∈ names w.fn.params) (hh : 0 < w.h)
+    (hl1 : w.der1.length = w.vars.length) (hl2 : w.der2.length = w.vars.length)
+    (k : Nat) (hk : k < w.vars.length) (hhk : has params w.vars[k] = true)
+    (b : Param ℝ) (hb : find? w.fn.params w.vars[k] = some b) (a0 a1 a2 a3 : ℝ)
+    (hcubic : ∀ t, f (values (upd1 w.fn.params w.vars[k] t)) = a0 + a1 * t + a2 * t ^ 2 + a3 * t ^ 3) :
+    (update3 f w params).1.der2[k]? = some (some (2 * a2 + 6 * a3 * b.value)) ∧
+    (a3 = 0 → (update3 f w params).1.der1[k]? = some (some (a1 + 2 * a2 * b.value))) := by
+  obtain ⟨_, h⟩ := update3_free f w params hown hok hF hpnd hc1 hcx hvars hin hh hl1 hl2
+  obtain ⟨h1, h2⟩ := h k hk hhk
+  have hpos : (0 : ℝ) < (1 + |b.value|) * w.h := mul_pos (by positivity) hh
+  have hne : -(Scalar.one + Scalar.abs b.value) * w.h ≠ 0 := by
+    simp only [ScalarReal.one_eq, ScalarReal.abs_eq]
+    have : -(1 + |b.value|) * w.h = -((1 + |b.value|) * w.h) := by ring
+    rw [this]; exact neg_ne_zero.mpr (ne_of_gt hpos)
+  have hbase : f (values w.fn.params) = a0 + a1 * b.value + a2 * b.value ^ 2 + a3 * b.value ^ 3 := by
+    rw [← hcubic b.value]
+    congr 2
+    symm
+    apply upd1_same
+    intro p hp hn
+    have := find?_of_mem hown.1 hp
+    rw [hn, hb] at this; injection this with this; rw [this]
+  constructor
+  · rw [h2]
+    simp only [three2, hb, hcubic, hbase]
+    have := three_point_d2_exact_deg3 a0 a1 a2 a3 b.value (-(Scalar.one + Scalar.abs b.value) * w.h) hne
+    simp only [sub_eq_add_neg] at this
+    rw [this]
+  · intro h3
+    rw [h1]
+    simp only [three1, hb, hcubic, h3]
+    have := three_point_d1_exact_deg2 a0 a1 a2 b.value (-(Scalar.one + Scalar.abs b.value) * w.h) hne
+    simp only [sub_eq_add_neg] at this
+    simp only [zero_mul, add_zero]
+    rw [this]
 
 end Bpp.C12
